@@ -29,8 +29,14 @@ type lat struct {
 
 type constTable struct {
 	name string
-	vals []constant.Value
+	vals []constant.Value          // slice / array tables, by index
+	m    map[string]constant.Value // map tables, by key (constant.Value.ExactString of the key)
+	isM  bool
+	zero constant.Value // the element type's zero value (map miss, unset array element)
 }
+
+// defaultTables: the constant tables of all loaded packages (set by the loader); used when a caller passes none.
+var defaultTables map[*ssa.Global]*constTable
 
 func (a lat) eq(b lat) bool {
 	if a.k != b.k {
@@ -110,6 +116,9 @@ func Specialize(fn *ssa.Function, bind map[ssa.Value]constant.Value, tables map[
 const maxInline = 3
 
 func specializeAt(fn *ssa.Function, bind map[ssa.Value]constant.Value, tables map[*ssa.Global]*constTable, depth int) *Result {
+	if tables == nil {
+		tables = defaultTables
+	}
 	s := &sccp{depth: depth, tuple: map[ssa.Value][]lat{}, fn: fn, val: map[ssa.Value]lat{}, execEdge: map[[2]int]bool{}, execBlk: map[*ssa.BasicBlock]bool{}, tables: tables, bound: map[ssa.Value]bool{}}
 	for _, p := range fn.Params {
 		s.val[p] = lat{k: top}
@@ -242,6 +251,11 @@ func (s *sccp) visitInstr(in ssa.Instruction) {
 		s.set(x, s.get(x.X))
 	case *ssa.IndexAddr:
 		base := s.get(x.X)
+		if g, isG := x.X.(*ssa.Global); isG { // element of a package-level array
+			if t := s.tables[g]; t != nil && !t.isM {
+				base = lat{k: cst, tbl: t, elem: -1}
+			}
+		}
 		idx := s.get(x.Index)
 		if base.k == cst && base.tbl != nil && base.elem == -1 && idx.k == cst {
 			if i, ok := constant.Int64Val(idx.v); ok && i >= 0 && int(i) < len(base.tbl.vals) {
@@ -271,6 +285,35 @@ func (s *sccp) visitInstr(in ssa.Instruction) {
 	case *ssa.Return, *ssa.Panic, *ssa.Store, *ssa.MapUpdate, *ssa.Send, *ssa.RunDefers, *ssa.Defer, *ssa.Go, *ssa.DebugRef:
 	case *ssa.Call:
 		s.visitCall(x)
+	case *ssa.Lookup:
+		base := s.get(x.X)
+		idx := s.get(x.Index)
+		if base.k == bot || idx.k == bot {
+			return
+		}
+		if base.k == cst && base.tbl != nil && base.tbl.isM && base.elem == -1 && idx.k == cst && idx.tbl == nil && !idx.nilc && idx.v != nil {
+			v, hit := base.tbl.m[idx.v.ExactString()]
+			if !hit {
+				v = base.tbl.zero
+			}
+			if v != nil {
+				if x.CommaOk {
+					res := []lat{{k: cst, v: v, elem: -1}, {k: cst, v: constant.MakeBool(hit), elem: -1}}
+					old := s.tuple[x]
+					s.tuple[x] = res
+					if old == nil || !(old[0].eq(res[0]) && old[1].eq(res[1])) {
+						s.val[x] = lat{k: top}
+						if refs := x.Referrers(); refs != nil {
+							s.ssaWL = append(s.ssaWL, *refs...)
+						}
+					}
+					return
+				}
+				s.set(x, lat{k: cst, v: v, elem: -1})
+				return
+			}
+		}
+		s.set(x, lat{k: top})
 	case *ssa.Extract:
 		if tl, ok := s.tuple[x.Tuple]; ok && x.Index < len(tl) {
 			s.set(x, tl[x.Index])
@@ -363,7 +406,14 @@ func (s *sccp) unop(x *ssa.UnOp) lat {
 		}
 		a := s.get(x.X)
 		if a.k == cst && a.tbl != nil && a.elem >= 0 {
-			return lat{k: cst, v: a.tbl.vals[a.elem], elem: -1}
+			v := a.tbl.vals[a.elem]
+			if v == nil {
+				v = a.tbl.zero
+			}
+			if v == nil {
+				return lat{k: top}
+			}
+			return lat{k: cst, v: v, elem: -1}
 		}
 		if a.k == bot {
 			return lat{}
